@@ -82,11 +82,11 @@ func (p *Prog) addEscFieldsOfType(t types.Type, out map[string]bool) {
 
 // Effects is the whole-program may-write summary.
 type Effects struct {
-	p       *Prog
-	direct  map[*ssa.Function]map[string]bool
-	callees map[*ssa.Function][]*ssa.Function
-	summary map[*ssa.Function]map[string]bool
-	addrTaken map[string][]*ssa.Function // signature key -> repo functions used as values
+	p         *Prog
+	direct    map[*ssa.Function]map[string]bool
+	callees   map[*ssa.Function][]*ssa.Function
+	summary   map[*ssa.Function]map[string]bool
+	addrTaken map[string][]*ssa.Function               // signature key -> repo functions used as values
 	dyn       map[*ssa.Function]map[*ssa.Function]bool // edges that exist only through signature matching of function values
 	cur       *ssa.Function
 }
